@@ -49,6 +49,8 @@ def scenario(scheduler, mode, state, nb, opts):
             if state != "stale-handle":
                 crop.sow_combos({"a": list(range(1, N + 1))})
             pre = []
+            if state != "stale-handle":
+                crop.missing_results()         # looked at before anything is grown: what it saw then must not be what the script is made from
             if state == "some-results":
                 pre = [b for b in range(1, nb + 1) if b % 2 == 0] or [1]
                 if len(pre) == nb:
@@ -125,7 +127,7 @@ def scenario(scheduler, mode, state, nb, opts):
     return None
 
 
-def cli_scenario(nb, pre, relative=False):
+def cli_scenario(nb, pre, relative=False, name="c"):
     with tmpdir() as d, quiet():
         with open(os.path.join(d, "fnmod.py"), "w") as f:
             f.write(FN_MODULE)
@@ -134,21 +136,21 @@ def cli_scenario(nb, pre, relative=False):
             for m in [k for k in sys.modules if k == "fnmod"]:
                 del sys.modules[m]
             import fnmod
-            crop = xyz.Crop(fn=fnmod.fn, name="c", parent_dir=d, batchsize=2)
+            crop = xyz.Crop(fn=fnmod.fn, name=name, parent_dir=d, batchsize=2)
             crop.sow_combos({"a": list(range(1, 2 * nb + 1))})
             if pre:
                 crop.grow(tuple(pre))
             open(os.path.join(d, "calls.log"), "w").close()
             env = dict(os.environ, PYTHONPATH=REPO + os.pathsep + d)
             pd_arg, cwd = (os.path.basename(d), os.path.dirname(d)) if relative else (d, d)
-            p = subprocess.run([sys.executable, "-m", "xyzpy.gen.xyzpy_grow_cli", "c", "--parent-dir", pd_arg, "--verbosity", "0"], capture_output=True, text=True, env=env, cwd=cwd, timeout=300)
+            p = subprocess.run([sys.executable, "-m", "xyzpy.gen.xyzpy_grow_cli", name, "--parent-dir", pd_arg, "--verbosity", "0"], capture_output=True, text=True, env=env, cwd=cwd, timeout=300)
             if p.returncode:
                 return [f"xyzpy-grow failed: {(p.stderr.strip().splitlines() or [''])[-1][:300]}"]
             calls = sorted(int(l) for l in open(os.path.join(d, "calls.log")) if l.strip())
             expect = sorted(a for b in range(1, nb + 1) if b not in pre for a in (2 * b - 1, 2 * b))
             if calls != expect:
                 return [f"xyzpy-grow evaluated {calls}, the missing batches need exactly {expect}"]
-            if tuple(xyz.Crop(fn=fnmod.fn, name="c", parent_dir=d).reap()) != tuple(10 * a for a in range(1, 2 * nb + 1)):
+            if tuple(xyz.Crop(fn=fnmod.fn, name=name, parent_dir=d).reap()) != tuple(10 * a for a in range(1, 2 * nb + 1)):
                 return ["reap after xyzpy-grow is not exact"]
         finally:
             sys.path.remove(d)
@@ -178,9 +180,9 @@ for k_, (scheduler, mode, state, nb, opts) in enumerate([("sge", "array", "fresh
         pr = [f"{type(e).__name__}: {e}"]
     if pr:
         finish(True, input=dict(scheduler=scheduler, mode=mode, state=state, batches=nb, options=opts), observed=pr, tried=tried)
-for nb, pre, rel in ((2, [], False), (3, [2], False), (2, [1], True)):
+for nb, pre, rel, nm in ((2, [], False, "c"), (3, [2], False, "zeta"), (2, [1], True, "x_scan-2"), (2, [], False, "yields.v2")):
     tried += 1
-    pr = cli_scenario(nb, pre, rel)
+    pr = cli_scenario(nb, pre, rel, nm)
     if pr:
-        finish(True, input=dict(cli="xyzpy-grow", batches=nb, already_grown=pre, relative_parent_dir=rel), observed=pr, tried=tried)
+        finish(True, input=dict(cli="xyzpy-grow", crop_name=nm, batches=nb, already_grown=pre, relative_parent_dir=rel), observed=pr, tried=tried)
 finish(False, tried=tried)
